@@ -390,9 +390,9 @@ contract("iface::Eval.__call__", returns="Any", modifies=["#CALLS"],
          raises=[{"cls": "BaseException", "ensures": [("recorded", "CALLS == old(CALLS) + [Ev('exc', self, args, kwargs, exc)]")]}])
 
 contract("iface::TestCase.assertEqual", params=["self", "first", "second"], returns="none", modifies=["#CALLS"],
-         notes="unittest.TestCase.assertEqual(a, b): returns iff a == b (dict equality for dicts), raises AssertionError otherwise",
-         ensures=[("equal", "dict_of(first) == dict_of(second)"), ("recorded", "CALLS == old(CALLS) + [Ev('assertEqual', self, first, second)]")],
-         raises=[{"cls": "AssertionError", "ensures": [("not-equal", "not (dict_of(first) == dict_of(second))"), ("recorded", "CALLS == old(CALLS)")]}])
+         notes="unittest.TestCase.assertEqual(a, b): returns iff a == b (dict equality for two dict objects, value identity for primitives), raises AssertionError otherwise",
+         ensures=[("equal", "ite(is_ref(first) and is_ref(second), dict_of(first) == dict_of(second), first == second)"), ("recorded", "CALLS == old(CALLS) + [Ev('assertEqual', self, first, second)]")],
+         raises=[{"cls": "AssertionError", "ensures": [("not-equal", "not ite(is_ref(first) and is_ref(second), dict_of(first) == dict_of(second), first == second)"), ("recorded", "CALLS == old(CALLS)")]}])
 contract("iface::TestCase.assertTrue", params=["self", "expr", "msg"], defaults={"msg": None}, returns="none", modifies=[],
          notes="unittest.TestCase.assertTrue(x): returns iff x is truthy, raises AssertionError otherwise",
          ensures=[("truthy", "truthy(expr)")], raises=[{"cls": "AssertionError", "ensures": [("falsy", "not truthy(expr)")]}])
